@@ -14,9 +14,9 @@ META = {
     "_get_unit_risk contract.",
 }
 MANIFEST_ENTRY = {
-    "level_text": "Deductive proof of the risk aggregation clauses of UpdateRisk for all trees, positions, multipliers, tables and history depths, of ClosePositionsAfterDates' bookkeeping for all children, schedules and prior records, and of SelectActive; algebraic lemmas for hedging and rolling; "
-    "HedgeRisks / RollPositionsAfterDates bodies are covered only by a bounded stand-in, labelled bounded.",
-    "level_note": "_get_unit_risk (try/except around pandas indexing) is an assumed callee contract; StrategyBase.close's own body is verified separately (position zero afterwards up to is_zero, fresh tree); inside the algo it is used through its call-site contract; the close-date table is a name-keyed Series model (A-PANDAS: label loc, <= comparison, boolean-mask indexing); the history frame's rows are a ghost log (its pandas construction is not modelled); reach over the whole tree is by "
+    "level_text": "Deductive proof of the risk aggregation clauses of UpdateRisk for all trees, positions, multipliers, tables and history depths, of ClosePositionsAfterDates' and RollPositionsAfterDates' bookkeeping for all children, schedules, factors and prior records, of StrategyBase.close / transact, and of SelectActive; algebraic lemmas for hedging and rolling; "
+    "the HedgeRisks body is covered only by a bounded stand-in, labelled bounded.",
+    "level_note": "_get_unit_risk (try/except around pandas indexing) is an assumed callee contract; StrategyBase.close's own body is verified separately (position zero afterwards up to is_zero, fresh tree); inside the algo it is used through its call-site contract; the close-date and roll tables are name-keyed Series / frame models with uninterpreted columns; target[name] is typed as a security (the names come from the isinstance-filtered children) (A-PANDAS: label loc, <= comparison, boolean-mask indexing); the history frame's rows are a ghost log (its pandas construction is not modelled); reach over the whole tree is by "
     "induction on the recursive call's contract (A-IND); numpy.linalg.inv/pinv are third-party (A-EXT); floats are reals.",
     "technique": "contract-based deductive verification (pyvc VCs + z3; recursive-call contract, ghost sum loop invariant) + algebraic lemmas; bounded real-code stand-in for numpy/pandas glue",
 }
@@ -28,6 +28,8 @@ def tasks(tier, seed):
         func("bt.algos.SelectActive.__call__"),
         func("bt.algos.ClosePositionsAfterDates.__call__"),
         func("bt.core.StrategyBase.close"),
+        func("bt.algos.RollPositionsAfterDates.__call__"),
+        func("bt.core.StrategyBase.transact"),
         dict(kind="custom", module="props.lemmas", fn="c20_risk_lemmas"),
         dict(kind="custom", module="props.bounded", fn="run_script", script="c20_risk", seed=seed, n=40 if tier == "quick" else 800, props=["C20"]),
     ]
